@@ -11,7 +11,7 @@
     boolean and evaluated on every generated case ([op_wfb], [batched_wfb]): column names are
     identifiers, a pointer has one pointee, rows have one value per column. *)
 From Coq Require Import List String Bool ZArith.
-From Thunder Require Import Sql.Model Sql.Confine.
+From Thunder Require Import Sql.Model Sql.Confine Sql.Methods Sql.MethodsProofs Gen.DbMethods.
 Import ListNotations.
 Open Scope string_scope.
 
@@ -150,6 +150,67 @@ Theorem c12_read_and_write_values_agree :
 Proof. exact read_write_agree. Qed.
 Print Assumptions c12_read_and_write_values_agree.
 
+(** * Every exported method of sqlgen.DB, by name
+
+    [Gen.DbMethods.db_methods] is extracted from sqlgen/*.go of the tree under test on every run (go/ast,
+    tools/gensqlmethods): the exported methods of DB with the kind of database call each can reach
+    (query, exec, begin).  [call] (Sql/Methods.v) has one constructor per method and [run_call] says what it
+    sends: the row-level methods through [run], FullScanQuery with its options rewrite, BaseQuery's EXPLAIN on
+    a WithPanicOnNoIndex handle, and the methods that only derive handles and contexts. *)
+
+(** Every exported method found in the source is a constructor of [call] whose kind of access in the model
+    is the one the source can reach: a method added to DB, or an existing one that starts to send another
+    kind of statement, makes this theorem fail ("method outside the model") instead of passing unnoticed. *)
+Theorem c12_every_exported_method_is_modelled :
+  db_methods_problem = false /\
+  forall m a, In (m, a) db_methods -> (exists cl, call_name cl = m) /\ access_of m = a.
+Proof. exact (conj (proj2 gen_methods_covered) every_db_method_modelled). Qed.
+Print Assumptions c12_every_exported_method_is_modelled.
+
+(** Whatever any of these methods sends -- the EXPLAIN of a statement included -- is confined to every
+    enforced limit. *)
+Theorem c12_every_method_confined :
+  forall x t c cl l,
+    call_wfb x t cl = true -> In l (enforced_limits (x_h x)) ->
+    Forall (xevent_confined t l) (fst (run_call x t c cl)).
+Proof. exact run_call_confined. Qed.
+Print Assumptions c12_every_method_confined.
+
+(** A row-level call that does not comply is refused; nothing is sent, not even the EXPLAIN. *)
+Theorem c12_noncomplying_method_call_rejected :
+  forall x t c cl o l,
+    op_of_call cl = Some o -> op_wfb (x_h x) t o = true -> In l (enforced_limits (x_h x)) ->
+    ~ Forall (event_confined t l) (fst (run no_limits t c o)) ->
+    snd (run_call x t c cl) <> 0
+    /\ (single_statement o -> fst (run_call x t c cl) = [])
+    /\ ~ In (XEv ECommit) (fst (run_call x t c cl)).
+Proof. exact run_call_noncomplying. Qed.
+Print Assumptions c12_noncomplying_method_call_rejected.
+
+(** The access table is what the model does: a method listed as sending no query / no write / beginning no
+    transaction never does (so the derived-handle and context methods send nothing but WithTx's BEGIN). *)
+Theorem c12_method_access_is_sound :
+  forall x t c cl, forallb (xevent_allowed (access_of (call_name cl))) (fst (run_call x t c cl)) = true.
+Proof. exact method_access_sound. Qed.
+Print Assumptions c12_method_access_is_sound.
+
+(** Handles derived by any chain of WithShardLimit / WithDynamicLimit / WithPanicOnNoIndex calls (accepted or
+    refused, in any order) keep every limit of the handle they come from, and a shard limit is never replaced:
+    so every call on every derived handle stays confined to the original limits. *)
+Theorem c12_derived_handles_keep_their_limits :
+  forall steps x, xwf x ->
+    incl (enforced_limits (x_h x)) (enforced_limits (x_h (fst (derive x steps))))
+    /\ (forall l, h_shard (x_h x) = Some l -> h_shard (x_h (fst (derive x steps))) = Some l).
+Proof. intros steps x H. exact (proj2 (derive_keeps_limits steps x H)). Qed.
+Print Assumptions c12_derived_handles_keep_their_limits.
+
+Theorem c12_calls_on_derived_handles_confined :
+  forall x steps t c cl l,
+    xwf x -> call_wfb (fst (derive x steps)) t cl = true -> In l (enforced_limits (x_h x)) ->
+    Forall (xevent_confined t l) (fst (run_call (fst (derive x steps)) t c cl)).
+Proof. exact derived_call_confined. Qed.
+Print Assumptions c12_calls_on_derived_handles_confined.
+
 (** * The hypotheses are satisfiable by non-trivial states *)
 Definition ex_users : table :=
   mk_table "users" true
@@ -200,6 +261,30 @@ Example ex_bulk_insert_rolls_back :
                     [GInt KI64 "" 0; GInt KI64 "" 8; GStr "" "b"; GNilPtr (TyStr "")]] 1)
   = ([EBegin; EStmt (SInsert "users" ["shard"; "name"; "nick"] [[DInt 7; DStr "a"; DNull]]); ERollback], Rejected).
 Proof. vm_compute. reflexivity. Qed.
+
+(** WithShardLimit, then a second (looser) WithShardLimit that is refused, then WithPanicOnNoIndex: the
+    handle keeps the first limit and FullScanQuery is not EXPLAINed, Query is. *)
+Definition ex_x : xhandle :=
+  fst (derive x_base [StShard [("shard", GInt KI64 "" 7)]; StShard []; StExplain]).
+
+Example ex_chain :
+  derive x_base [StShard [("shard", GInt KI64 "" 7)]; StShard []; StExplain]
+  = (mk_xhandle ex_handle false true, [false; true; false]) /\ xwf x_base.
+Proof. split; [vm_compute; reflexivity|intros _; reflexivity]. Qed.
+
+Example ex_explain :
+  map (fun e => match e with XExplain s => "EXPLAIN " ++ sql_text s | XEv (EStmt s) => sql_text s | _ => "" end)
+      (fst (run_call ex_x ex_users (mk_ctx false false) (CQuery ex_filter None)))
+  = ["EXPLAIN SELECT id, shard, name, nick FROM users WHERE shard = ? AND name = ?";
+     "SELECT id, shard, name, nick FROM users WHERE shard = ? AND name = ?"]
+  /\ List.length (fst (run_call ex_x ex_users (mk_ctx false false) (CFullScanQuery ex_filter None))) = 1
+  /\ run_call ex_x ex_users (mk_ctx false false) (CQuery [("name", GStr "" "bob")] None) = ([], 1)
+  /\ run_call ex_x ex_users (mk_ctx true false) CWithTx = ([], 1)
+  /\ run_call ex_x ex_users (mk_ctx false false) CWithTx = ([XEv EBegin], 0).
+Proof. repeat split; vm_compute; reflexivity. Qed.
+
+Example ex_table_nonempty : List.length db_methods = 18 /\ In ("UpsertRows", (false, true, true)) db_methods.
+Proof. split; [reflexivity|vm_compute; tauto]. Qed.
 
 Example ex_mixed_batch :
   run_batched_multi ex_users
